@@ -467,15 +467,20 @@ pub fn run(a: &Args, out: &mut Out) {
         *acc.depths.entry(tree.depth()).or_insert(0) += 1;
         let nops = if big { 30 } else { r.range(20, 60) as usize };
         acc.api = !big && i % 3 == 2;   // a third of the documents is read through the api::Value methods (chains of Value reads)
-        acc.doc(out, &mut pool, &mut r, if big { "big" } else { "wf" }, &doc, &keys, true, nops);
+        // the list-based extracted model costs ~n^2 on a container of n children: beyond 1100 children the document is compared
+        // with the eager spec only (class `huge`)
+        let class = if !big { "wf" } else if gen_big_children(bigsel) > 1100 { "huge" } else { "big" };
+        acc.doc(out, &mut pool, &mut r, class, &doc, &keys, true, nops);
         acc.api = false;
     }
     // mid-size containers of handle-carrying children, long histories that keep using early handles
-    let nmid = if thorough { 45 } else { 9 };
+    let nmid = if thorough { 30 } else { 9 };
     for i in 0..nmid {
         let mut r = rng.fork(700_000 + i as u64);
         // quick: sizes 1025/1040/1100 only (the list-based model costs ~|doc| per parsed element)
-        let sel = if thorough { i } else { (r.below(3) + 5 * r.below(3)) as usize };
+        // thorough: also 2049 (every shape twice); 4100 costs the list-based model ~4x as much again and adds nothing the
+        // 20000..140000-element class `huge` (eager spec only) does not cover
+        let sel = if thorough { (i % 4) + 5 * (i / 4 % 3) } else { (r.below(3) + 5 * r.below(3)) as usize };
         let tree = gen_mid(&mut r, sel);
         let doc = tree.bytes();
         let keys: Vec<Vec<u8>> = vec![b"x".to_vec(), b"y".to_vec(), b"k0".to_vec(), b"k1".to_vec(), b"k1024".to_vec(), b"k1299".to_vec()];
